@@ -123,3 +123,47 @@ Section Filter.
     | _ => true
     end.
 End Filter.
+
+(* ---- the text runs of a document ----
+   A text run is a maximal sequence of character-data chunks not interrupted by ANY tag (start or end, kept
+   or dropped) or by a comment-like item: the builder calls endData at every one of these, so adjacent text
+   separated only by dropped tags is NOT merged.  Comment-like items are runs of their own.  [text_runs]
+   lists them in document order as (string class, stored text), stored the way the document level stores text:
+   whitespace-only text collapses unless the document object itself preserves whitespace, comment-like content
+   is kept as sent, the class is the one asked for (or the document object's own container class). *)
+Section Runs.
+  Variable cfg : bconfig.
+
+  Definition doc_pw : bool := memS (c_root cfg) (c_pw cfg).
+  Definition doc_class (base : option N) : N :=
+    let container := match base with Some c => c | None => 0%N end in
+    match assocS (c_root cfg) (c_containers cfg) with
+    | Some c => if N.eqb container 0 then c else container
+    | None => container
+    end.
+  Definition run_of (pending : list str) (base : option N) : list (N * str) :=
+    match pending with
+    | [] => []
+    | chunks => [(doc_class base, gathered cfg doc_pw (is_special base) chunks)]
+    end.
+
+  Fixpoint runs_node (d : dnode) {struct d} : list (N * str) :=
+    match d with
+    | DTag _ _ _ ks =>
+        (fix go (pending : list str) (l : list dnode) {struct l} : list (N * str) :=
+           match l with
+           | [] => run_of pending None
+           | DText cs :: l' => go (rev cs ++ pending) l'
+           | DSpecial c t :: l' => run_of pending None ++ run_of [t] (Some c) ++ go [] l'
+           | (DTag _ _ _ _ as d') :: l' => run_of pending None ++ runs_node d' ++ go [] l'
+           end) [] ks
+    | _ => []
+    end.
+  Fixpoint text_runs (pending : list str) (l : list dnode) : list (N * str) :=
+    match l with
+    | [] => run_of pending None
+    | DText cs :: l' => text_runs (rev cs ++ pending) l'
+    | DSpecial c t :: l' => run_of pending None ++ run_of [t] (Some c) ++ text_runs [] l'
+    | (DTag _ _ _ _ as d') :: l' => run_of pending None ++ runs_node d' ++ text_runs [] l'
+    end.
+End Runs.
